@@ -95,3 +95,19 @@ def sleep_for(s):
     import time
     time.sleep(s)
     return s
+
+
+def stubborn(x):
+    """never returns, swallows every Exception AND ignores SIGTERM: cannot be stopped short of SIGKILL"""
+    import signal
+    import time
+    try:
+        signal.signal(signal.SIGTERM, signal.SIG_IGN)
+    except ValueError:
+        pass                      # not the main thread
+    while True:
+        try:
+            while True:
+                time.sleep(0.01)
+        except Exception:
+            pass
